@@ -106,6 +106,15 @@ impl TxIn {
             Err(e) => return Err(BSVErrors::DeserialiseTxIn("unlocking_script_size".to_string(), e)),
         };
 
+        // The declared size must fit in what is left of the input (do not allocate on the input's say-so)
+        let remaining = (cursor.get_ref().len() as u64).saturating_sub(cursor.position());
+        if unlocking_script_size > remaining {
+            return Err(BSVErrors::DeserialiseTxIn(
+                "unlocking_script".to_string(),
+                std::io::Error::new(std::io::ErrorKind::UnexpectedEof, "declared script size exceeds the remaining input"),
+            ));
+        }
+
         // Script Sig
         let mut unlocking_script = vec![0; unlocking_script_size as usize];
         if let Err(e) = cursor.read(&mut unlocking_script) {
